@@ -749,6 +749,34 @@ def _targets():
         (lambda rng: _c_stv_dist(rng, 'droopname')))
     add('TransferableVoteDistributor:step2', lambda: vseq.TransferableVoteDistributor(eliminate_step=-2, quota_function=None),
         (lambda rng: _c_stv_dist(rng, 'noquota')), stv_grid='noquota')
+    # --- nesting depth 3 and 4: two / three constituency levels, prev_gains / max_seats nested to that depth
+    def byc(leaf, levels):
+        e = leaf
+        for _ in range(levels):
+            e = vcore.ByConstituency(e)
+        return e
+    for depth in (3, 4):
+        add(f'MultistageDistributor:depth{depth}',
+            (lambda d=depth: vcore.MultistageDistributor([byc(HA(), d - 1), byc(HA('sainte_lague'), d - 1)], depth=d)),
+            (lambda rng, d=depth: _c_nested_dist(rng, d)), nested_depth=depth)
+        add(f'ByConstituency:levels{depth - 1}', (lambda d=depth: byc(HA(), d - 1)),
+            (lambda rng, d=depth: _c_nested_dist(rng, d)), nested_depth=depth)
+        add(f'Conditioned:depth{depth}',
+            (lambda d=depth: vcore.Conditioned(vthr.RelativeThreshold(Fraction(1, 20)), byc(HA(), d - 1), depth=d)),
+            (lambda rng, d=depth: _c_nested_dist(rng, d)), nested_depth=depth)
+        add(f'UnusedVotesDistributor:depth{depth}',
+            (lambda d=depth: vcore.UnusedVotesDistributor([byc(vprop.QuotaDistributor('hare'), d - 1), byc(HA(), d - 1)],
+                                                          quota_functions=['hare'], depth=d)),
+            (lambda rng, d=depth: _c_nested_dist(rng, d, seats_nested=True, caps=False)), nested_depth=depth)
+        add(f'SubsettedVotes:depth{depth - 1}', (lambda d=depth: vconv.SubsettedVotes(depth=d - 1)),
+            (lambda rng, d=depth: call('convert', _g_nested(rng, d - 1, lambda r: g_simple(r, frac=False)), g_selection(rng))),
+            nested_depth=depth)
+        add(f'convert.ByConstituency:totals_levels{depth - 2}',
+            (lambda d=depth: (lambda c: [c := vconv.ByConstituency(c) for _ in range(d - 2)][-1])(vconv.VoteTotals())),
+            (lambda rng, d=depth: call('convert', _g_nested(rng, d - 1, lambda r: g_simple(r, frac=False)))), nested_depth=depth)
+        add(f'convert.ByConstituency:ctotals_levels{depth - 2}',
+            (lambda d=depth: (lambda c: [c := vconv.ByConstituency(c) for _ in range(d - 2)][-1])(vconv.ConstituencyTotals())),
+            (lambda rng, d=depth: call('convert', _g_nested(rng, d - 1, lambda r: g_simple(r, frac=False)))), nested_depth=depth)
     # --- InvalidVoteEliminator: every validator class x nominator kinds; ballots rejected for a CANDIDATE (CandidateError: a
     # blank option under allow_blank=False, a party under PersonNominator, an independent, a person under PartyNominator) and
     # for their FORM (VoteError), in every order in the votes dict
@@ -984,6 +1012,39 @@ def _c_score_underscored(rng, min_count, bottom):
     if rng.random() < 0.75:
         return call('evaluate', _g_score_underscored(rng, min_count, bottom), 2)
     return call('evaluate', g_score(rng), g_seats(rng, 2))
+
+
+LEVEL_NAMES = [['r0', 'r1'], ['d0', 'd1', 'd2'], ['w0', 'w1']]
+
+
+def _g_nested(rng, levels, inner, lv=0, keys=None):
+    """a dict nested over `levels` constituency levels around `inner(rng)`; returns the tagged dict"""
+    if levels == 0:
+        return inner(rng)
+    names = LEVEL_NAMES[lv % len(LEVEL_NAMES)]
+    ks = names[:rng.randint(1, len(names))]
+    return D([(k, _g_nested(rng, levels - 1, inner, lv + 1)) for k in ks])
+
+
+def _like(rng, votes, levels, leaf, p=0.8):
+    """a dict with the constituency structure of `votes` (to `levels` levels) and leaf(rng, party names) at the bottom"""
+    if levels == 0:
+        return leaf(rng, [k for k, _ in votes['D']])
+    return D([(k, _like(rng, v, levels - 1, leaf, p)) for k, v in votes['D'] if rng.random() < p])
+
+
+def _c_nested_dist(rng, depth, seats_nested=False, caps=True):
+    """evaluate(votes, n_seats, prev_gains=..., max_seats=...) with everything nested over depth-1 constituency levels and
+    NON-EMPTY innermost previous gains"""
+    cs = g_cands(rng, 2, 3)
+    votes = _g_nested(rng, depth - 1, lambda r: g_simple(r, cs, frac=False))
+    k = {}
+    if rng.random() < 0.85:
+        k['prev_gains'] = _like(rng, votes, depth - 1, lambda r, ps: D([(p, r.randint(1, 2)) for p in r.sample(ps, r.randint(1, len(ps)))]))
+    if caps and rng.random() < 0.4:
+        k['max_seats'] = _like(rng, votes, depth - 1, lambda r, ps: D([(p, r.randint(2, 4)) for p in ps]), p=1)
+    n = _like(rng, votes, depth - 1, lambda r, ps: r.randint(1, 4), p=1) if seats_nested else rng.randint(1, 4)
+    return call('evaluate', votes, n, **k)
 
 
 def _mixed_pool(rng):
@@ -1431,10 +1492,17 @@ def _perturb(k):
     (_RNG_ORIG.get('seed') or _r.seed)(k)
 
 
-def _invoke(t, obj, c, perturb=None, mode=None):
+def _invoke(t, obj, c, perturb=None, mode=None, reuse=None, keep=None):
+    """`reuse`: (args, kw) OBJECTS of an earlier call of the history to be passed again (the caller keeps one prev_gains /
+    votes object and calls twice); `keep`: list that receives the argument objects of this call"""
     dec = _Dec(mode)
-    args = [dec(a) for a in c['a']]
-    kw = {k: dec(v) for k, v in c.get('k', {}).items()}
+    if reuse is not None:
+        args, kw = reuse
+    else:
+        args = [dec(a) for a in c['a']]
+        kw = {k: dec(v) for k, v in c.get('k', {}).items()}
+    if keep is not None:
+        keep.append((args, kw))
     before = enc([args, kw], ordered=True)
     if perturb is not None:
         _perturb(perturb)
@@ -1500,6 +1568,13 @@ def run_history(case):
     obs = {'fresh': [], 'shared': [], 'repeat': [], 'mutated': [], 'drift': [], 'mstate': [], 'defaults': [],
            'rng': [], 'rng_fresh': []}
     _PERSONS.clear()
+    for c in calls:           # a call that passes the argument objects of an earlier call again has that call's arguments
+        sa = c.get('same_as')
+        if isinstance(sa, int) and sa < len(calls) and calls[sa]['t'] == c['t']:
+            c['a'] = json.loads(json.dumps(calls[sa]['a']))
+            c['k'] = json.loads(json.dumps(calls[sa].get('k', {})))
+        elif 'same_as' in c:
+            del c['same_as']
     pre = check_defaults()          # pollution left over by earlier cases is not this case's
     m0 = _module_state()
     # fresh instances first (nothing of this history has happened yet)
@@ -1513,13 +1588,16 @@ def run_history(case):
     bad = check_defaults()
     # one shared instance per target
     shared = {}
+    kept = []
     for i, c in enumerate(calls):
         t = T[names[c['t']]]
         if c['t'] not in shared:
             shared[c['t']] = t['shared']() if 'shared' in t else t['make']()
         obj = shared[c['t']]
         s0 = _state(obj)
-        out, mut, tr = _invoke(t, obj, c, mode=case.get('names'))
+        sa = c.get('same_as')
+        out, mut, tr = _invoke(t, obj, c, mode=case.get('names'), keep=kept,
+                               reuse=kept[sa] if isinstance(sa, int) and sa < len(kept) else None)
         s1 = _state(obj)
         obs['rng'].append(tr.events[:64])
         if 'ok' in out:
@@ -1755,6 +1833,7 @@ REQUIRED_COUNTERS = ['every_class', 'singleton', 'pav_cache_grows', 'pav_small_a
                      'draw:RandomUnrankedBallotSelector.evaluate', 'draw_via:initial_allocation', 'draw_via:direct_transfer',
                      'draw_via:next_count', 'foreign_first', 'model:dispatch', 'raise_first', 'call_after_exception',
                      'call_after_refusal', 'refusal_first', 'prev_gains_then_none', 'larger_then_smaller', 'smaller_after_larger',
+                     'nested_depth3', 'nested_depth4', 'nested_depth3_prev_gains', 'nested_depth4_prev_gains', 'same_argument_objects',
                      'eliminator_mixed_candidates', 'reject:candidate_error', 'reject:candidate_error_only',
                      'reject:candidate_error_before_vote_error', 'reject:vote_error_before_candidate_error', 'reject:vote_error',
                      'reject:none', 'score_params_underscored', 'stv_dist_no_quota_partial_caps', 'stv_dist_no_quota_none_caps', 'stv_dist_no_quota_full_caps',
@@ -1784,6 +1863,12 @@ def _tag_calls(TG, targets, calls, tags):
             tags.append('score_params_underscored')
         if t.get('eliminator'):
             tags.append('eliminator_mixed_candidates')
+        if t.get('nested_depth'):
+            tags.append(f"nested_depth{t['nested_depth']}")
+            if 'prev_gains' in k:
+                tags.append(f"nested_depth{t['nested_depth']}_prev_gains")
+        if isinstance(c.get('same_as'), int):
+            tags.append('same_argument_objects')
         if t.get('stv_grid') and c.get('_stv'):
             tags.append(f"stv_dist_{'no_quota' if t['stv_grid'] == 'noquota' else 'quota'}_{c['_stv']}_caps")
             tags.append('stv_dist_quota:' + t['stv_grid'])
@@ -1900,6 +1985,18 @@ def generate(rng, tier):
         for _ in range(6 if tier == 'quick' else 50):
             calls = [dict(TG[name]['gen'](rng), t=0) for _ in range(rng.randint(2, 4))]
             yield _mk([name], calls, _tag_calls(TG, [name], calls, ['score_grid']))
+    # (5d4) nesting depth 3 / 4, the caller passing the SAME votes / prev_gains / max_seats objects twice
+    for name in [n for n in names if TG[n].get('nested_depth')]:
+        for _ in range(4 if tier == 'quick' else 30):
+            c0 = dict(TG[name]['gen'](rng), t=0)
+            calls = [c0, dict(json.loads(json.dumps(c0)), same_as=0), dict(TG[name]['gen'](rng), t=0),
+                     dict(json.loads(json.dumps(c0)), same_as=0)]
+            yield _mk([name], calls, _tag_calls(TG, [name], calls, ['nested_directed']))
+    # the same for a sample of all other targets: one argument object, two calls
+    for name in rng.sample(names, 60 if tier == 'quick' else len(names)):
+        c0 = dict(TG[name]['gen'](rng), t=0)
+        calls = [c0, dict(json.loads(json.dumps(c0)), same_as=0)]
+        yield _mk([name], calls, _tag_calls(TG, [name], calls, ['same_objects_twice']))
     # (5d''') vote eliminators: both rejection routes in every order
     for name in [n for n in names if TG[n].get('eliminator')]:
         for _ in range(3 if tier == 'quick' else 30):
@@ -2613,8 +2710,16 @@ def shrink_candidates(case):
             cs = calls[:i] + calls[i + 1:]
             used = sorted(set(c['t'] for c in cs))
             remap = {t: j for j, t in enumerate(used)}
-            cand = dict(case, targets=[case['targets'][t] for t in used],
-                        calls=[dict(c, t=remap[c['t']]) for c in cs])
+            def fix(c):
+                c = dict(c, t=remap[c['t']])
+                sa = c.get('same_as')
+                if isinstance(sa, int):
+                    if sa == i:
+                        del c['same_as']
+                    elif sa > i:
+                        c['same_as'] = sa - 1
+                return c
+            cand = dict(case, targets=[case['targets'][t] for t in used], calls=[fix(c) for c in cs])
             if case.get('foreign') is not None:
                 cand['foreign'] = [remap[f] for f in case['foreign'] if f in remap]
             if case.get('ref_calls') is not None:
